@@ -463,12 +463,12 @@ pub fn enc_payloads(r: &Result<Vec<String>, String>) -> String {
 // ---------------------------------------------------------------------------------------------
 // the real code
 
-fn fromstr_syntax(r: &Range) -> String {
+pub fn fromstr_syntax(r: &Range) -> String {
     format!("{},{},{}", addr_text(r), r.lo, r.hi)
 }
 
 /// `192.0.2.0/24^24-32` → Range
-fn parse_display(s: &str, v6: bool) -> Option<Range> {
+pub fn parse_display(s: &str, v6: bool) -> Option<Range> {
     let (p, lr) = s.split_once('^')?;
     let (a, l) = p.split_once('/')?;
     let (lo, hi) = lr.split_once('-')?;
